@@ -135,6 +135,7 @@ let () =
          if comp_recurring c then bump "with_recurring_component";
          if comp_cut c then bump "with_unending_rule_cut_at_horizon";
          if not (times_ok f c) then bump "unreadable_time_value_under_time_range";
+         (match rfc3_comp f c with U3 -> bump "spec_unconstrained_time_range_on_non_event" | _ -> ());
          if not (rset_ok f c) then bump "rrule_iterator_contract_broken"
        | None -> bump "nil_object");
       (* non-trivial: the filter has more than its root node, or a time range *)
@@ -146,7 +147,11 @@ let () =
       let agree = agree && (match o.o_data with Some c -> rset_ok f c | None -> true) in
       verdict ~agree ~spec ~kf:"-"
         ~detail:(Printf.sprintf "model=%s spec=%s" (show_res string_of_bool (match_top f o))
-                   (match o.o_data with Some c -> string_of_bool (rfc4791_comp f c) | None -> "panic"))
+                   (match o.o_data with
+                    | Some c -> (match rfc3_comp f c with T3 -> "true" | F3 -> "false"
+                                 | U3 -> "unconstrained (a time range on a component that is not an event decides; strict reading: "
+                                         ^ string_of_bool (rfc4791_comp f c) ^ ")")
+                    | None -> "panic"))
     | [L [A "filter"; q; _objs]; L (A "trees" :: trees); obs] ->
       let q = (match q with A "nil" -> None | x -> Some (cf_of x)) in
       let os = List.mapi (fun i t -> { o_tag = n_of_int i; o_data = data_of t }) trees in
